@@ -29,7 +29,7 @@ tag_declaration       : nontype_spec* tag_specifier nontype_spec*
 tag_specifier         : ( STRUCT | UNION ) IDX ( LBRACE struct_declaration+ RBRACE )?
                       | ENUM IDX ( LBRACE enumerator_list COMMA? RBRACE )?
                       | ENUM LBRACE enumerator_list COMMA? RBRACE
-static_assert         : _STATIC_ASSERT LPAREN constant_expression ( COMMA STRING_LITERAL+ )? RPAREN
+static_assert         : _STATIC_ASSERT LPAREN constant_expression ( COMMA string )? RPAREN
 declaration_specifiers: nontype_spec* type_core nontype_spec*
 nontype_spec          : storage | type_qualifier | function_spec | alignment_spec
 storage               : TYPEDEF | EXTERN | STATIC | AUTO | REGISTER | _THREAD_LOCAL
